@@ -287,7 +287,7 @@ func TestPropSegInit(t *testing.T) {
 				m.apply(segOp{Kind: "init", Text: drawMixedText(rt, ev.Scale(24, 80))})
 				return
 			}
-			m.apply(segOp{Kind: "burst_init", Text: drawMixedText(rt, 8), AltText: drawMixedText(rt, 8), N: drawBurstN(rt, ev.Thorough())})
+			m.apply(segOp{Kind: "burst_init", Text: drawMixedText(rt, 8), AltText: drawMixedText(rt, 8), N: drawBurstN(rt, false)}) // 2^16 Inits are not affordable
 		})
 		weighted(actions, "restart", 1, func(rt *rapid.T) { m.apply(segOp{Kind: "restart", Iter: drawIter(rt)}) })
 		weighted(actions, "stale", 1, func(rt *rapid.T) { m.apply(segOp{Kind: "stale", N: rapid.IntRange(1, 4).Draw(rt, "n")}) })
